@@ -3,13 +3,19 @@
    Model: Model/Base64.v (util.BasicAuthHeaderValue, SetBearerAuthToken, net/http parseBasicAuth),
    Model/Digest.v (digest.go + an independent transcription of RFC 7616 section 3.4).
    The hash function is a universally quantified variable H everywhere. *)
-From ReqV Require Import Lib.Bytes Model.Base64 Model.Digest Proofs.Base64Proofs Proofs.DigestProofs.
+From ReqV Require Import Lib.Bytes Model.Base64 Model.AuthParam Model.Digest
+     Proofs.Base64Proofs Proofs.AuthParamProofs Proofs.DigestProofs Proofs.DigestVerifyProofs.
 
 (* ----- Basic / Bearer: the server recovers exactly what was given, for all strings ----- *)
 
 Theorem C20_base64_roundtrip : forall b : bytes, b64_decode (b64_encode b) = Some b.
 Proof. exact base64_roundtrip. Qed.
 Print Assumptions C20_base64_roundtrip.
+
+(* the encoding is padded to whole groups of four characters *)
+Theorem C20_base64_length : forall s, length (b64_encode s) = 4 * ((length s + 2) / 3).
+Proof. exact b64_encode_length. Qed.
+Print Assumptions C20_base64_length.
 
 (* the transmitted credential is user ":" pass for ALL byte strings *)
 Theorem C20_basic_decodes : forall user pass,
@@ -65,19 +71,67 @@ Theorem C20_digest_matches_rfc7616 : forall H c uri method user pass cnonce,
   exists fs,
     authorize H c uri method user pass cnonce = inl fs /\
     NoDup (map fst fs) /\
-    forall k, lookup_field k fs = rfc7616_field H c uri method user pass cnonce k.
+    forall k, option_map fval_sem (lookup_field k fs) = rfc7616_field H c uri method user pass cnonce k.
 Proof. exact digest_matches_rfc7616. Qed.
 Print Assumptions C20_digest_matches_rfc7616.
 
-(* ... and such a challenge is answered: exactly one more request, same body *)
-Theorem C20_supported_is_answered : forall H rp first rsp user pass cnonce c,
+(* ----- the header TEXT, as a server reads it ----- *)
+
+(* quoted-string escaping round trip, client side: every byte string a server writes as a
+   quoted-string (quote and backslash escaped) is recovered exactly by unquoteParam *)
+Theorem C20_challenge_value_roundtrip : forall s,
+  unquote_param (dquote :: escape_quoted s ++ [dquote]) = s.
+Proof. exact unquote_param_escape. Qed.
+Print Assumptions C20_challenge_value_roundtrip.
+
+(* server side: an RFC 7235 parser (scheme, 1*SP, #auth-param, quoted-pairs resolved, names
+   case-insensitive, duplicates refused) reads back every parameter list rendered the way
+   authorize() renders it - the exact bytes of every escaped value, whatever they are *)
+Theorem C20_header_parses_back : forall fs,
+  forallb field_ok fs = true -> keys_distinct fs = true ->
+  parse_credentials (render_fields fs) = Some (bs "Digest", map sem_field fs).
+Proof. exact parse_credentials_rendered. Qed.
+Print Assumptions C20_header_parses_back.
+
+(* THE acceptance theorem: for every supported challenge, every user name, password, realm,
+   nonce, opaque, method and request URI (ANY bytes, quotes and backslashes included), every
+   client nonce and every hash function whose digests are free of quote and backslash (hex),
+   the header text is parsed back by the RFC 7235 parser to exactly the parameters emitted and
+   is accepted by the RFC 7616 verifier of Model/Digest.v *)
+Theorem C20_verifier_accepts : forall H,
+  (forall f d, clean (H f d) = true) ->
+  forall c uri method user pass cnonce,
+  supported c = true -> clean cnonce = true ->
+  exists fs,
+    authorize H c uri method user pass cnonce = inl fs /\
+    parse_credentials (render_fields fs) = Some (bs "Digest", map sem_field fs) /\
+    rfc7616_accepts H c uri method user pass cnonce (render_fields fs) = true.
+Proof. exact verifier_accepts. Qed.
+Print Assumptions C20_verifier_accepts.
+
+(* ... and acceptance is not vacuous: an accepted header parses, and each section 3.4 parameter
+   (response included) has exactly the RFC's value for the client nonce that was sent *)
+Theorem C20_accept_means_rfc_values : forall H c uri method user pass hint hdr,
+  rfc7616_accepts H c uri method user pass hint hdr = true ->
+  exists scheme ps cnonce,
+    parse_credentials hdr = Some (scheme, ps) /\ to_lower scheme = bs "digest" /\
+    (cnonce = hint \/ assoc_bytes (bs "cnonce") ps = Some (Quoted cnonce)) /\
+    (forall k, In k rfc_auth_params ->
+       assoc_bytes k ps = rfc7616_field H c uri method user pass cnonce k) /\
+    (forall k v, In (k, v) ps -> In k rfc_auth_params).
+Proof. exact accepts_means_rfc_values. Qed.
+Print Assumptions C20_accept_means_rfc_values.
+
+(* ... and such a challenge is answered: exactly one more request, same body, same Content-Type *)
+Theorem C20_supported_is_answered : forall H first rsp user pass cnonce c,
   r_err rsp = false -> r_status rsp = 401%N -> r_chal rsp <> [] ->
   parse_challenge (r_chal rsp) = inl c -> supported c = true ->
   exists fs q,
     authorize H c (w_uri first) (w_method first) user pass cnonce = inl fs /\
-    digest_exchange H rp first rsp user pass cnonce = [first; q] /\
-    w_auth q = Some (render_fields fs) /\ (rp = true -> w_body q = w_body first) /\
-    forall k, lookup_field k fs = rfc7616_field H c (w_uri first) (w_method first) user pass cnonce k.
+    digest_exchange H true first rsp user pass cnonce = [first; q] /\
+    w_auth q = Some (render_fields fs) /\ w_body q = w_body first /\ w_ctype q = w_ctype first /\
+    forall k, option_map fval_sem (lookup_field k fs) =
+              rfc7616_field H c (w_uri first) (w_method first) user pass cnonce k.
 Proof. exact supported_is_answered. Qed.
 Print Assumptions C20_supported_is_answered.
 
@@ -96,7 +150,7 @@ Proof. exact qop_without_auth_is_error. Qed.
 Print Assumptions C20_qop_without_auth_is_error.
 
 Theorem C20_non_utf8_charset_is_error : forall c v,
-  bytes_eqb (to_upper (trim_quotes v)) (bs "UTF-8") = false ->
+  bytes_eqb (to_upper (unquote_param v)) (bs "UTF-8") = false ->
   set_param c (bs "charset") v = inr ECharset.
 Proof. exact param_charset_not_utf8. Qed.
 Print Assumptions C20_non_utf8_charset_is_error.
@@ -114,6 +168,13 @@ Proof.
 Qed.
 Print Assumptions C20_malformed_param_is_error.
 
+(* a parameter list is accepted iff every single parameter is (no dependence on order or on
+   what was parsed before) *)
+Theorem C20_params_accepted_iff : forall ps c,
+  (exists c', parse_params c ps = inl c') <-> forallb param_ok ps = true.
+Proof. exact parse_params_ok_iff. Qed.
+Print Assumptions C20_params_accepted_iff.
+
 Theorem C20_error_means_no_header : forall H rp first rsp user pass cnonce e,
   r_err rsp = false -> r_status rsp = 401%N ->
   create_digest_auth H (r_chal rsp) (w_uri first) (w_method first) user pass cnonce = inr e ->
@@ -129,19 +190,36 @@ Theorem C20_non_401_untouched : forall H rp first rsp user pass cnonce,
 Proof. exact non_401_untouched. Qed.
 Print Assumptions C20_non_401_untouched.
 
-(* at most one re-send per call; it has the method, request URI and body of the original
-   request and carries the computed header *)
+(* at most one re-send per call; it has the method, request URI, Content-Type and body of the
+   original request - unconditionally - and carries the computed header *)
 Theorem C20_answered_once_body_intact : forall H rp first rsp user pass cnonce,
   length (digest_exchange H rp first rsp user pass cnonce) <= 2 /\
   hd_error (digest_exchange H rp first rsp user pass cnonce) = Some first /\
   forall q, In q (tl (digest_exchange H rp first rsp user pass cnonce)) ->
-    r_err rsp = false /\ r_status rsp = 401%N /\
+    r_err rsp = false /\ r_status rsp = 401%N /\ rp = true /\
     w_method q = w_method first /\ w_uri q = w_uri first /\
-      (rp = true -> w_body q = w_body first) /\
+    w_ctype q = w_ctype first /\ w_body q = w_body first /\
     exists auth, w_auth q = Some auth /\
       create_digest_auth H (r_chal rsp) (w_uri first) (w_method first) user pass cnonce = inl auth.
 Proof. exact answered_once_body_intact. Qed.
 Print Assumptions C20_answered_once_body_intact.
+
+(* a body that cannot be obtained again (plain io.Reader): an error and no second request -
+   never the credentials with another body *)
+Theorem C20_unreplayable_is_error : forall H first rsp user pass cnonce,
+  r_err rsp = false -> r_status rsp = 401%N ->
+  (exists e, digest_middleware H false first rsp user pass cnonce = MwErr e) /\
+  digest_exchange H false first rsp user pass cnonce = [first].
+Proof. exact unreplayable_is_error. Qed.
+Print Assumptions C20_unreplayable_is_error.
+
+(* the pinned code sent the credentials with an EMPTY body in that case *)
+Theorem C20_unreplayable_pinned_refuted : forall H first rsp user pass cnonce auth,
+  r_err rsp = false -> r_status rsp = 401%N ->
+  create_digest_auth H (r_chal rsp) (w_uri first) (w_method first) user pass cnonce = inl auth ->
+  exists q, digest_middleware_pinned H false first rsp user pass cnonce = Resent q /\ w_body q = [].
+Proof. exact unreplayable_pinned_refuted. Qed.
+Print Assumptions C20_unreplayable_pinned_refuted.
 
 (* the pinned (pre-fix) splitter rejected supported challenges; witnesses kept checked *)
 Theorem C20_pinned_split_refuted :
@@ -149,6 +227,24 @@ Theorem C20_pinned_split_refuted :
   exists c, parse_challenge (bs "Digest realm=""r"", nonce=""n"", qop=""auth,auth-int""") = inl c /\
             supported c = true.
 Proof. exact pinned_rejects_qop_list. Qed.
+Print Assumptions C20_pinned_split_refuted.
+
+Theorem C20_pinned_comma_in_realm_refuted :
+  parse_challenge_pinned (bs "Digest realm=""Acme, Inc."", nonce=""n""") = inr EBadChallenge /\
+  exists c, parse_challenge (bs "Digest realm=""Acme, Inc."", nonce=""n""") = inl c /\
+            c_realm c = bs "Acme, Inc.".
+Proof. exact pinned_rejects_comma_in_realm. Qed.
+Print Assumptions C20_pinned_comma_in_realm_refuted.
+
+(* the pinned value reader (strings.Trim) kept the backslashes of a quoted-pair and lost the
+   closing quote; the repaired one yields the realm the server meant *)
+Theorem C20_pinned_quoted_pair_refuted :
+  set_param_pinned empty_chal (bs "realm") (bs """say \""hi\""""") <>
+  set_param empty_chal (bs "realm") (bs """say \""hi\""""") /\
+  exists c, set_param empty_chal (bs "realm") (bs """say \""hi\""""") = inl c /\
+            c_realm c = bs "say ""hi""".
+Proof. exact pinned_keeps_quoted_pair. Qed.
+Print Assumptions C20_pinned_quoted_pair_refuted.
 
 (* non-vacuity: RFC 7616 section 3.9.1's challenge is supported, parsed, and answered with all
    eleven parameters; H instantiated with a toy function only to run the model *)
@@ -164,4 +260,27 @@ Example C20_nonvacuous :
 Proof.
   cbv zeta. split; [eexists; repeat split; vm_compute; reflexivity|].
   split; [eexists; split; vm_compute; reflexivity|]. split; vm_compute; reflexivity.
+Qed.
+
+(* non-vacuity of the acceptance theorem: a user name with a double quote and a realm with a
+   backslash; H = "keep the letters and digits" (free of quote and backslash, depends on its
+   input).  The rendered header is accepted; the same header is refused for another password,
+   another method, and when its response is altered. *)
+Example C20_verifier_nonvacuous :
+  let H := fun (_ : hashfn) (d : bytes) => filter (fun b => is_alpha b || is_digit b) d in
+  let c := mkChal (bs "back\slash") [] (bs "n0nce") (bs "o") [] (bs "SHA-256-sess") (bs "auth-int, auth") (bs "true") in
+  let user := bs "q""uote" in
+  supported c = true /\
+  exists fs hdr,
+    authorize H c (bs "/p?x=1") (bs "POST") user (bs "pw") (bs "c0ffee") = inl fs /\
+    hdr = render_fields fs /\
+    contains_sub (bs "realm=""back\\slash""") hdr = true /\
+    rfc7616_accepts H c (bs "/p?x=1") (bs "POST") user (bs "pw") [] hdr = true /\
+    rfc7616_accepts H c (bs "/p?x=1") (bs "POST") user (bs "other") [] hdr = false /\
+    rfc7616_accepts H c (bs "/p?x=1") (bs "GET") user (bs "pw") [] hdr = false /\
+    rfc7616_accepts H c (bs "/p?x=1") (bs "POST") user (bs "pw") []
+      (bs "Digest username=""x"", realm=""back\\slash"", nonce=""n0nce"", uri=""/p?x=1"", response=""0""") = false.
+Proof.
+  cbv zeta. split; [vm_compute; reflexivity|]. eexists. eexists.
+  split; [vm_compute; reflexivity|]. split; [reflexivity|]. repeat split; vm_compute; reflexivity.
 Qed.
